@@ -471,6 +471,28 @@ pub struct Universe {
     pub dirs: Vec<String>,
 }
 pub fn universe() -> Universe {
+    universe_styled(0)
+}
+/// Spelling knob for ids: the cache is a map over *any* id string, so the same workloads also run with ids that are
+/// long (past any inline / prefix optimisation), contain a path separator, or non-ASCII characters and spaces.
+pub fn id_suffix(style: u8) -> String {
+    match style {
+        1 => "_".to_string() + &"q".repeat(70),
+        2 => "/s".to_string(),
+        3 => " \u{e9}\u{4e16}".to_string(),
+        4 => "_".to_string() + &"w".repeat(300),
+        _ => String::new(),
+    }
+}
+pub fn universe_styled(style: u8) -> Universe {
+    let sfx = id_suffix(style);
+    let mut u = universe_plain();
+    for id in u.ids.iter_mut() {
+        id.push_str(&sfx);
+    }
+    u
+}
+fn universe_plain() -> Universe {
     Universe { ids: ["x0", "x1", "x2", "d.y0", "d.y1", "d.e.z0"].iter().map(|s| s.to_string()).collect(), dirs: ["", "d", "d.e", "nodir"].iter().map(|s| s.to_string()).collect() }
 }
 pub fn gen_tree(g: &mut SplitMix, u: &Universe, with_recipes: bool) -> Tree {
